@@ -259,48 +259,55 @@ def lexOperator (allowExists : Bool) (d : Bytes) : Option (Op × Bytes) :=
 
 /-! ### parse_parameter_definition (tape.rs:995) -/
 
+/-- `if initial { tape[len-1] = Object{end: parent}; parent = len-1 }`; `none` = panic. -/
+def paramDefPre (st : St) (initial : Bool) : Option (List Tok × Nat) :=
+  if initial then
+    (if st.tape.length = 0 then none
+     else (setTok st.tape (st.tape.length - 1) (.object st.parent false)).map (fun t => (t, st.tape.length - 1)))
+  else some (st.tape, st.parent)
+
+def paramTok (isUndefined : Bool) (s : Slice) : Tok :=
+  if isUndefined then .undefParameter s else .parameter s
+
+/-- after the `initial` block: parameter name, then a parameter value or the first key. -/
+def paramDefBody (mixed : Bool) (tape : List Tok) (parent : Nat) (data : Bytes) : Step :=
+  let isUndefined := decide (data[2]? = some 33)
+  let k := 2 + (if isUndefined then 1 else 0)
+  -- `data.get(k..)` is `None` when `k > len`
+  if data.length < k then .done (.err .eof) else
+  let d := data.drop k
+  if d.isEmpty then .done (.err .eof) else
+  match splitAtScalar d with
+  | none => .done .panic
+  | some (name, d2) =>
+    if d2.head? ≠ some 93 then .done (.err .syntax) else
+    let d3 := d2.tail
+    let nameSl : Slice := ⟨d.length, name⟩
+    let ptok : Tok := paramTok isUndefined nameSl
+    match skipWs d3 with
+    | none => .done (.err .eof)
+    | some d4 =>
+      match splitAtScalar d4 with
+      | none => .done .panic
+      | some (kv, d5) =>
+        match skipWs d5 with
+        | none => .done (.err .eof)
+        | some d6 =>
+          match d6 with
+          | [] => .done .panic
+          | c :: rest =>
+            if c = 93 then
+              .cont { state := .key, mixed := mixed, parent := parent,
+                      tape := tape ++ [ptok] ++ [.unquoted ⟨d4.length, kv⟩] } rest
+            else
+              .cont { state := .kvs, mixed := mixed, parent := (tape ++ [ptok]).length,
+                      tape := tape ++ [ptok] ++ [.object parent false, .unquoted ⟨d4.length, kv⟩] } d6
+
 def paramDef (st : St) (data : Bytes) (initial : Bool) : Step :=
   if data[1]? ≠ some 91 then .done (.err .syntax) else
-  -- `if initial { tape[len-1] = Object{end: parent}; parent = len-1 }`
-  let pre : Option (List Tok × Nat) :=
-    if initial then
-      (if st.tape.length = 0 then none
-       else (setTok st.tape (st.tape.length - 1) (.object st.parent false)).map (fun t => (t, st.tape.length - 1)))
-    else some (st.tape, st.parent)
-  match pre with
+  match paramDefPre st initial with
   | none => .done .panic
-  | some (tape, parent) =>
-    let isUndefined := decide (data[2]? = some 33)
-    let k := 2 + (if isUndefined then 1 else 0)
-    -- `data.get(k..)` is `None` when `k > len`
-    if data.length < k then .done (.err .eof) else
-    let d := data.drop k
-    if d.isEmpty then .done (.err .eof) else
-    match splitAtScalar d with
-    | none => .done .panic
-    | some (name, d2) =>
-      if d2.head? ≠ some 93 then .done (.err .syntax) else
-      let d3 := d2.tail
-      let nameSl : Slice := ⟨d.length, name⟩
-      let tape := tape ++ [if isUndefined then .undefParameter nameSl else .parameter nameSl]
-      match skipWs d3 with
-      | none => .done (.err .eof)
-      | some d4 =>
-        match splitAtScalar d4 with
-        | none => .done .panic
-        | some (kv, d5) =>
-          match skipWs d5 with
-          | none => .done (.err .eof)
-          | some d6 =>
-            match d6 with
-            | [] => .done .panic
-            | c :: rest =>
-              if c = 93 then
-                .cont { state := .key, mixed := st.mixed, parent := parent,
-                        tape := tape ++ [.unquoted ⟨d4.length, kv⟩] } rest
-              else
-                .cont { state := .kvs, mixed := st.mixed, parent := tape.length,
-                        tape := tape ++ [.object parent false, .unquoted ⟨d4.length, kv⟩] } d6
+  | some (tape, parent) => paramDefBody st.mixed tape parent data
 
 /-! ### the five states (tape.rs:556-991); `data` is what `skip_ws_t` returned -/
 
